@@ -575,6 +575,7 @@ class ScriptedRNG:
         self.bit_generator = self._fb.bit_generator
         self.exhausted = False
         self.mismatch = []
+        self.requests = []  # (kind, low, high) of every uniform/random request, for obligations on the requested range
 
     def _next(self, kind):
         if self.i < len(self.draws):
@@ -597,6 +598,7 @@ class ScriptedRNG:
         return symx.wfloat(v) if size is None else self._arr(v).reshape(size)
 
     def uniform(self, low=0.0, high=1.0, size=None):
+        self.requests.append(("uniform", low, high))
         v = self._next("uniform")
         if v is None:
             return self._fb.uniform(low, high, size)
